@@ -671,6 +671,8 @@ def inline_call(crate, target, args):
         return None  # results built by effects stay opaque calls (summarised by the rules)
     if rty == "bool":
         return None  # predicates are expanded through their return condition (ret_cond)
+    if len([d for d in target.defs.get(0, []) if d[2] == []]) > 2 or any(t["t"] is None for (_, t) in target.calls):
+        return None  # dispatch tables / functions with a diverging arm are summarised by their return table
     _inline_stack.append(target.path)
     try:
         rv = target.val_local(0)
